@@ -606,6 +606,9 @@ func run(seed int64, n int, dir string, _ []string) {
 		pr.DisposeTable("t")
 		_, _ = pr.Exec("DISPOSE FUNCTION cntpos;")
 	}
+
+	// ---------- stream 3: the aggregate functions themselves (agg.go) ----------
+	runAgg(g, o, pr, n)
 }
 
 // idsOfKeys maps the implementation's output rows back to source row ids: the k-th output row must be
